@@ -2,6 +2,7 @@
    (C03 round trip, C04 decoding direction). -/
 import SmppVerif.Lemmas.PduRead
 import SmppVerif.Lemmas.SpecEncode
+import SmppVerif.Lemmas.Gsm
 
 namespace SmppVerif.Lemmas.SmRead
 open SmppVerif SmppVerif.Pdu SmppVerif.Lemmas.Pdu SmppVerif.Lemmas.PduRead
@@ -133,7 +134,280 @@ theorem smFromPdu_short (hd : List Nat) (h16 : hd.length = 16) (h : Header) (dfl
   rw [hts, htv]
   simp only [smValidate]
   have h5 : ¬ svc.length > 5 := by omega
-  have hte : text.isEmpty = false := by cases text <;> simp_all
+  have hte : text.isEmpty = false := by
+    cases text with
+    | nil => exact absurd rfl htext
+    | cons _ _ => rfl
   simp [h5, hte]
+
+/-- MANDATORY FIELDS READ BACK, text in a message_payload parameter (short_message empty). -/
+theorem smFromPdu_payload (hd : List Nat) (h16 : hd.length = 16) (h : Header) (dflt enc : Enc)
+    (svc : List Nat) (ston snpi : Nat) (snum : List Nat) (dton dnpi : Nat) (dnum : List Nat)
+    (esm pid prio : Nat) (sched valid : List Nat) (reg repl dc defId : Nat) (pbytes text : List Nat)
+    (thi tlo lhi llo : Nat)
+    (schedT validT : Time.TimeObj)
+    (w : FieldsOK svc ston snpi snum dton dnpi dnum sched valid)
+    (henc : (if dc = 0 then Except.ok dflt else encOfDataCoding dc) = .ok enc)
+    (hdm0 : decodeMessage esm (decodeCodec enc) [] = .ok ([], []))
+    (hdm : decodeMessage esm (decodeCodec enc) pbytes = .ok (text, []))
+    (htag : thi * 256 + tlo = Gen.Tlv.messagePayload) (hl : lhi * 256 + llo = pbytes.length)
+    (hts : Time.fromSmpp sched = .ok schedT) (htv : Time.fromSmpp valid = .ok validT)
+    (hsvc : svc.length ≤ 5) (htext : text ≠ [])
+    (hlen : h.pduLength = (hd ++ mandatory svc ston snpi snum dton dnpi dnum esm pid prio sched valid reg repl dc defId []
+        (thi :: tlo :: lhi :: llo :: pbytes)).length) :
+    smFromPdu (hd ++ mandatory svc ston snpi snum dton dnpi dnum esm pid prio sched valid reg repl dc defId []
+        (thi :: tlo :: lhi :: llo :: pbytes)) h dflt =
+      .ok { seq := h.seq, status := 0, shortMessage := [],
+            source := ⟨snum, ston, snpi⟩, dest := ⟨dnum, dton, dnpi⟩, serviceType := svc,
+            esmClass := esm, protocolId := pid, priorityFlag := prio, schedule := schedT, validity := validT,
+            registeredDelivery := reg, replaceIfPresent := repl,
+            encoding := if enc.name = str Gen.Consts.defaultEncoding then none else some enc,
+            smDefaultMsgId := defId, messagePayload := text, optionalParams := [] } := by
+  have c0 := cur_start hd (mandatory svc ston snpi snum dton dnpi dnum esm pid prio sched valid reg repl dc defId []
+    (thi :: tlo :: lhi :: llo :: pbytes))
+  rw [h16] at c0
+  generalize hbuf : hd ++ mandatory svc ston snpi snum dton dnpi dnum esm pid prio sched valid reg repl dc defId []
+    (thi :: tlo :: lhi :: llo :: pbytes) = buf at *
+  unfold mandatory at c0
+  simp only [List.nil_append, List.length_nil] at c0
+  obtain ⟨r1, c1⟩ := cur_cstr c0 w.svc
+  obtain ⟨r2, c2⟩ := cur_int1 c1
+  obtain ⟨r3, c3⟩ := cur_int1 c2
+  obtain ⟨r4, c4⟩ := cur_cstr c3 w.snum.1
+  obtain ⟨r5, c5⟩ := cur_int1 c4
+  obtain ⟨r6, c6⟩ := cur_int1 c5
+  obtain ⟨r7, c7⟩ := cur_cstr c6 w.dnum.1
+  obtain ⟨r8, c8⟩ := cur_int1 c7
+  obtain ⟨r9, c9⟩ := cur_int1 c8
+  obtain ⟨r10, c10⟩ := cur_int1 c9
+  obtain ⟨r11, c11⟩ := cur_cstr c10 w.sched
+  obtain ⟨r12, c12⟩ := cur_cstr c11 w.valid
+  obtain ⟨r13, c13⟩ := cur_int1 c12
+  obtain ⟨r14, c14⟩ := cur_int1 c13
+  obtain ⟨r15, c15⟩ := cur_int1 c14
+  obtain ⟨r16, c16⟩ := cur_int1 c15
+  obtain ⟨r17, c17⟩ := cur_int1 c16
+  obtain ⟨t1, c18⟩ := cur_int2 c17
+  obtain ⟨t2, c19⟩ := cur_int2 c18
+  have c19' : Cur buf (16 + svc.length + 1 + 1 + 1 + snum.length + 1 + 1 + 1 + dnum.length + 1 + 1 + 1 + 1 + sched.length + 1 +
+      valid.length + 1 + 1 + 1 + 1 + 1 + 1 + 2 + 2) (pbytes ++ []) := by simpa using c19
+  obtain ⟨hsl, c20⟩ := cur_slice c19'
+  have hend := cur_end c20
+  unfold smFromPdu
+  simp only [bind, Except.bind, pure, Except.pure]
+  rw [r1]; simp only
+  rw [r2]; simp only [enumVal, w.ston, if_true]
+  rw [r3]; simp only [w.snpi, if_true]
+  rw [r4]; simp only [checkLen, w.snum.2, if_true]
+  rw [r5]; simp only [w.dton, if_true]
+  rw [r6]; simp only [w.dnpi, if_true]
+  rw [r7]; simp only [w.dnum.2, if_true]
+  rw [r8]; simp only
+  rw [r9]; simp only
+  rw [r10]; simp only
+  rw [r11]; simp only
+  rw [r12]; simp only
+  rw [r13]; simp only
+  rw [r14]; simp only
+  rw [r15]; simp only
+  rw [henc]; simp only
+  rw [r16]; simp only
+  rw [r17]; simp only
+  have hs0 : slice buf (16 + svc.length + 1 + 1 + 1 + snum.length + 1 + 1 + 1 + dnum.length + 1 + 1 + 1 + 1 + sched.length + 1 +
+      valid.length + 1 + 1 + 1 + 1 + 1 + 1) (16 + svc.length + 1 + 1 + 1 + snum.length + 1 + 1 + 1 + dnum.length + 1 + 1 + 1 + 1 + sched.length + 1 +
+      valid.length + 1 + 1 + 1 + 1 + 1 + 1 + 0) = [] := by simp [slice]
+  rw [hs0, hdm0]; simp only [Nat.add_zero]
+  -- one optional parameter: message_payload
+  have hlt : 16 + svc.length + 1 + 1 + 1 + snum.length + 1 + 1 + 1 + dnum.length + 1 + 1 + 1 + 1 + sched.length + 1 +
+      valid.length + 1 + 1 + 1 + 1 + 1 + 1 < h.pduLength := by
+    rw [hlen, ← hend]; omega
+  have hfuel : buf.length + 1 = (buf.length - 1) + 1 + 1 := by rw [← hend]; omega
+  rw [hfuel]
+  rw [tlvLoop]
+  rw [if_pos hlt, t1]
+  simp only
+  rw [t2]
+  simp only
+  rw [htag, if_pos rfl, hl, hsl, hdm]
+  simp only [List.append_nil]
+  have hstop : ¬ (16 + svc.length + 1 + 1 + 1 + snum.length + 1 + 1 + 1 + dnum.length + 1 + 1 + 1 + 1 + sched.length + 1 +
+      valid.length + 1 + 1 + 1 + 1 + 1 + 1 + 2 + 2 + pbytes.length < h.pduLength) := by
+    rw [hlen, ← hend]; omega
+  rw [tlvLoop, if_neg hstop]
+  simp only
+  rw [hts, htv]
+  simp only [smValidate]
+  have h5 : ¬ svc.length > 5 := by omega
+  have hte : text.isEmpty = false := by
+    cases text with
+    | nil => exact absurd rfl htext
+    | cons _ _ => rfl
+  simp [h5, hte]
+
+/-! ### the layout `pdu()` writes is the layout read back -/
+
+open SmppVerif.Spec.Smpp in
+theorem be1' (v : Nat) (h : v < 256) : be 1 v = [v] := by
+  simp [be, Nat.mod_eq_of_lt h]
+
+open SmppVerif.Lemmas.SpecEncode SmppVerif.Spec.Smpp in
+/-- the specification's field list, flattened, is the `mandatory` layout -/
+theorem layout_eq_mandatory (m : Sm) (w : SmWF m) (sm payloadTlv ts tv : List Nat) (dc : Nat)
+    (hdc : dc < 256) (hsm : sm.length < 256)
+    (hts : Time.toSmpp m.schedule = .ok ts) (htv : Time.toSmpp m.validity = .ok tv)
+    (hta : (∀ c ∈ ts, c < 128) ∧ (∀ c ∈ tv, c < 128)) :
+    smLayout m sm payloadTlv dc [] =
+      .ok (mandatory m.serviceType m.source.ton m.source.npi m.source.number m.dest.ton m.dest.npi m.dest.number
+        m.esmClass.toNat m.protocolId.toNat m.priorityFlag.toNat ts tv m.registeredDelivery.toNat
+        m.replaceIfPresent.toNat dc m.smDefaultMsgId.toNat sm payloadTlv) := by
+  rw [smLayout_eq_spec m w sm payloadTlv [] ts tv dc hdc hsm hts htv hta]
+  have b := fun (v : Int) (h : 0 ≤ v ∧ v < 256) => be1' v.toNat (by omega)
+  simp only [SmFields.fields, List.flatMap_cons, List.flatMap_nil, Field.bytes, mandatory,
+    be1' _ w.source.2.1, be1' _ w.source.2.2, be1' _ w.dest.2.1, be1' _ w.dest.2.2,
+    b _ w.esm, b _ w.pid, b _ w.prio, b _ w.reg, b _ w.repl, b _ w.defId, be1' _ hdc, be1' _ hsm]
+  simp
+
+/-- field values of a submit_sm / deliver_sm that SMPP 3.4 allows and that can be read back -/
+structure SmRT (m : Sm) : Prop where
+  wf : SpecEncode.SmWF m
+  svc : CStrOK m.serviceType ∧ m.serviceType.length ≤ 5
+  snum : CStrOK m.source.number ∧ m.source.number.length ≤ 20
+  dnum : CStrOK m.dest.number ∧ m.dest.number.length ≤ 20
+  ston : enumHas Gen.Enums.ton m.source.ton = true
+  snpi : enumHas Gen.Enums.npi m.source.npi = true
+  dton : enumHas Gen.Enums.ton m.dest.ton = true
+  dnpi : enumHas Gen.Enums.npi m.dest.npi = true
+  noParams : m.optionalParams = []
+
+/-- what comes back: the fields on the wire; what is not transmitted takes its default -/
+def readBack (m : Sm) (text payload : List Nat) (schedT validT : Time.TimeObj) (encD : Enc) : Sm :=
+  { seq := m.seq, status := 0, shortMessage := text,
+    source := ⟨m.source.number, m.source.ton, m.source.npi⟩, dest := ⟨m.dest.number, m.dest.ton, m.dest.npi⟩,
+    serviceType := m.serviceType, esmClass := m.esmClass.toNat, protocolId := m.protocolId.toNat,
+    priorityFlag := m.priorityFlag.toNat, schedule := schedT, validity := validT,
+    registeredDelivery := m.registeredDelivery.toNat, replaceIfPresent := m.replaceIfPresent.toNat,
+    encoding := if encD.name = str Gen.Consts.defaultEncoding then none else some encD,
+    smDefaultMsgId := m.smDefaultMsgId.toNat, messagePayload := payload, optionalParams := [] }
+
+set_option maxRecDepth 8000 in
+/-- ROUND TRIP of submit_sm / deliver_sm without optional parameters, text carried in short_message.
+    The text codec and the time format enter as their round-trip facts (C10/C11, C17). -/
+theorem sm_round_trip_short (dflt : Enc) (deliver : Bool) (m : Sm) (w : SmRT m) (bytes : List Nat) (e : Option Enc)
+    (sm ts tv text : List Nat) (enc' : Option Enc) (encD : Enc) (dc : Nat) (schedT validT : Time.TimeObj)
+    (hp : pdu dflt (if deliver then Msg.deliverSm m else Msg.submitSm m) = .ok (bytes, e))
+    (htp : smTextPart dflt m = .ok (sm, [], enc')) (hdcv : smDataCoding enc' = .ok dc) (hdc : dc < 256)
+    (hsm : sm.length < 256)
+    (hts : Time.toSmpp m.schedule = .ok ts) (htv : Time.toSmpp m.validity = .ok tv)
+    (hcs : CStrOK ts ∧ CStrOK tv)
+    (hfs : Time.fromSmpp ts = .ok schedT) (hfv : Time.fromSmpp tv = .ok validT)
+    (henc : (if dc = 0 then Except.ok dflt else encOfDataCoding dc) = .ok encD)
+    (hdm : decodeMessage m.esmClass.toNat (decodeCodec encD) sm = .ok (text, []))
+    (htext : text ≠ []) (hst : enumHas Gen.Enums.smppCommandStatus m.status = true) :
+    decode bytes dflt = .ok (if deliver then Msg.deliverSm (readBack m text [] schedT validT encD)
+                             else Msg.submitSm (readBack m text [] schedT validT encD)) := by
+  have hta : (∀ c ∈ ts, c < 128) ∧ (∀ c ∈ tv, c < 128) :=
+    ⟨fun c hc => (hcs.1 c hc).1, fun c hc => (hcs.2 c hc).1⟩
+  have hlay := layout_eq_mandatory m w.wf sm [] ts tv dc hdc hsm hts htv hta
+  have hbody : smBody dflt m = .ok (mandatory m.serviceType m.source.ton m.source.npi m.source.number m.dest.ton m.dest.npi
+      m.dest.number m.esmClass.toNat m.protocolId.toNat m.priorityFlag.toNat ts tv m.registeredDelivery.toNat
+      m.replaceIfPresent.toNat dc m.smDefaultMsgId.toNat sm [], enc') := by
+    unfold smBody
+    rw [htp]; simp only
+    rw [hdcv]; simp only
+    have : smParams m = [] := by unfold smParams; rw [w.noParams]; simp
+    rw [this]
+    simp only [List.map_nil, concatM]
+    rw [hlay]
+  have key : ∀ wrap : Sm → Msg, (wrap = Msg.submitSm ∨ wrap = Msg.deliverSm) → smPdu dflt wrap m = .ok (bytes, e) →
+      decode bytes dflt = .ok (wrap (readBack m text [] schedT validT encD)) := by
+    intro wrap hwrap hpdu
+    unfold smPdu at hpdu
+    rw [hbody] at hpdu
+    simp only at hpdu
+    cases hh : packHeader (16 + (mandatory m.serviceType m.source.ton m.source.npi m.source.number m.dest.ton m.dest.npi
+      m.dest.number m.esmClass.toNat m.protocolId.toNat m.priorityFlag.toNat ts tv m.registeredDelivery.toNat
+      m.replaceIfPresent.toNat dc m.smDefaultMsgId.toNat sm []).length) (wrap m) with
+    | error x => rw [hh] at hpdu; cases hpdu
+    | ok hd =>
+      rw [hh] at hpdu
+      simp only [Except.map, Except.ok.injEq, Prod.mk.injEq] at hpdu
+      obtain ⟨rfl, _⟩ := hpdu
+      have h16 := (packHeader_spec _ _ hd hh).1
+      have hs := seq_nonneg_of_packHeader _ _ hd hh
+      have hstw : enumHas Gen.Enums.smppCommandStatus (wrap m).status = true := by
+        rcases hwrap with rfl | rfl <;> exact hst
+      have hph := parseHeader_of_packHeader _ (wrap m) hd (mandatory m.serviceType m.source.ton m.source.npi m.source.number
+        m.dest.ton m.dest.npi m.dest.number m.esmClass.toNat m.protocolId.toNat m.priorityFlag.toNat ts tv
+        m.registeredDelivery.toNat m.replaceIfPresent.toNat dc m.smDefaultMsgId.toNat sm []) hh hstw
+      unfold decode
+      rw [hph]
+      simp only
+      have hrd := fun (hdr : Header) (hl : hdr.pduLength = (hd ++ mandatory m.serviceType m.source.ton m.source.npi
+          m.source.number m.dest.ton m.dest.npi m.dest.number m.esmClass.toNat m.protocolId.toNat m.priorityFlag.toNat ts tv
+          m.registeredDelivery.toNat m.replaceIfPresent.toNat dc m.smDefaultMsgId.toNat sm []).length) =>
+        smFromPdu_short hd h16 hdr dflt encD
+          m.serviceType m.source.ton m.source.npi m.source.number m.dest.ton m.dest.npi m.dest.number
+          m.esmClass.toNat m.protocolId.toNat m.priorityFlag.toNat ts tv m.registeredDelivery.toNat m.replaceIfPresent.toNat
+          dc m.smDefaultMsgId.toNat sm text schedT validT
+          ⟨w.svc.1, w.snum, w.dnum, hcs.1, hcs.2, w.ston, w.snpi, w.dton, w.dnpi⟩ henc hdm hfs hfv w.svc.2 htext hl
+      have hsq : (((wrap m).seq.toNat : Nat) : Int) = m.seq := by
+        rcases hwrap with rfl | rfl <;> exact Int.toNat_of_nonneg hs
+      rcases hwrap with rfl | rfl
+      · simp only [fromPdu, Msg.command]
+        rw [hrd _ (by simp [h16])]
+        simp only [Except.map, readBack, Msg.seq] at hsq ⊢
+        rw [hsq]
+      · simp only [fromPdu, Msg.command]
+        rw [hrd _ (by simp [h16])]
+        simp only [Except.map, readBack, Msg.seq] at hsq ⊢
+        rw [hsq]
+  cases deliver with
+  | true => exact key Msg.deliverSm (Or.inr rfl) hp
+  | false => exact key Msg.submitSm (Or.inl rfl) hp
+
+set_option maxRecDepth 8000 in
+/-- ROUND TRIP, default alphabet GSM 03.38, automatic encoding: every text over the alphabet
+    (extension characters included) whose encoding fits short_message (≤ 254 octets), with every
+    in-range mandatory field, no scheduling / validity time, no optional parameters.  No hypothesis
+    about codecs is left: the GSM codec round trip is C10's theorem. -/
+theorem sm_round_trip_gsm (deliver : Bool) (m : Sm) (w : SmRT m) (bytes : List Nat) (e : Option Enc)
+    (hp : pdu encGsm (if deliver then Msg.deliverSm m else Msg.submitSm m) = .ok (bytes, e))
+    (henc : m.encoding = none) (hpre : m.encoded = []) (hpay : m.messagePayload = [])
+    (heh : m.errorHandling = .mode .strict)
+    (htext : Gsm.isGsmText m.shortMessage = true) (hne : m.shortMessage ≠ [])
+    (hlen : ∀ b, Gsm.encode .strict m.shortMessage = .ok b → b.length ≤ 254)
+    (hudhi : m.esmClass.toNat % 128 < 64)
+    (htime : m.schedule = .none ∧ m.validity = .none)
+    (hst : enumHas Gen.Enums.smppCommandStatus m.status = true) :
+    decode bytes encGsm = .ok (if deliver then Msg.deliverSm (readBack m m.shortMessage [] .none .none encGsm)
+                               else Msg.submitSm (readBack m m.shortMessage [] .none .none encGsm)) := by
+  obtain ⟨b, hb, hd, _⟩ := Lemmas.Gsm.decode_encode m.shortMessage htext
+  have hbl := hlen b hb
+  have hsne : m.shortMessage.isEmpty = false := by
+    cases hm : m.shortMessage with
+    | nil => exact absurd hm hne
+    | cons _ _ => rfl
+  have htp : smTextPart encGsm m = .ok (b, [], none) := by
+    unfold smTextPart
+    rw [hpre]
+    simp only [List.isEmpty_nil, if_true, hsne, Bool.false_eq_true, if_false]
+    unfold smppEncode
+    rw [henc]
+    simp only [if_true, encGsm, codecEncode, heh, hb]
+    have h1 : ¬ (b.length > 254 ∧ ¬ false = true ∧ ¬ m.autoPayload = true) := by omega
+    rw [hpay]
+    simp only [List.isEmpty_nil]
+    rw [if_neg (by omega), if_neg (by simp; omega)]
+  have hcodec : decodeCodec encGsm = Codec.gsm := by decide
+  have hdm : decodeMessage m.esmClass.toNat (decodeCodec encGsm) b = .ok (m.shortMessage, []) := by
+    rw [hcodec]
+    unfold decodeMessage
+    rw [if_neg (by omega)]
+    simp only [codecDecode, hd, Except.map]
+  have hnil : CStrOK ([] : List Nat) := by intro c hc; simp at hc
+  have hcs : CStrOK ([] : List Nat) ∧ CStrOK ([] : List Nat) := ⟨hnil, hnil⟩
+  exact sm_round_trip_short encGsm deliver m w bytes e b [] [] m.shortMessage none encGsm 0 .none .none hp htp rfl
+    (by decide) (by omega) (by rw [htime.1]; rfl) (by rw [htime.2]; rfl)
+    hcs rfl rfl rfl hdm hne hst
 
 end SmppVerif.Lemmas.SmRead
